@@ -199,7 +199,7 @@ package connect
 //@   ensures gramT(timeout) && durT(timeout) <= 9223372036854775807 ==> err == nil && res == durT(timeout)          // label: honoured-exactly
 //@   ensures gramT(timeout) && durT(timeout) > 9223372036854775807 ==> err != nil && Is(err, errNoTimeout)          // label: unbounded-if-unrepresentable
 //@   ensures |timeout| >= 1 && !isUnit(timeout[|timeout|-1]) ==> err != nil && !Is(err, errNoTimeout)               // label: unknown-unit-rejected
-//@   ensures |timeout| >= 1 && isUnit(timeout[|timeout|-1]) && !isInt10(timeout[:|timeout|-1]) ==> err != nil && !Is(err, errNoTimeout)   // label: non-decimal-rejected
+//@   ensures |timeout| >= 1 && isUnit(timeout[|timeout|-1]) && !isNum10(timeout[:|timeout|-1]) ==> err != nil && !Is(err, errNoTimeout)   // label: non-decimal-rejected
 //@   ensures |timeout| >= 1 && isNum10(timeout[:|timeout|-1]) && val10(timeout[:|timeout|-1]) > 99999999 ==> err != nil && !Is(err, errNoTimeout)   // label: too-many-digits-rejected
 
 //@ func grpcEncodeTimeout(timeout) (res, err)
@@ -239,7 +239,7 @@ package connect
 //@   requires request != nil
 //@   ensures let h := hget(request.Header, "Grpc-Timeout") in gramT(h) && durT(h) <= 9223372036854775807 ==> err == nil && ctx == ctxWithTimeout(reqctx(request), durT(h))   // label: grammatical-honoured-exactly
 //@   ensures let h := hget(request.Header, "Grpc-Timeout") in h == "" || (gramT(h) && durT(h) > 9223372036854775807) ==> err == nil && ctx == reqctx(request) && cancel == nil   // label: absent-or-unrepresentable-is-unbounded
-//@   ensures let h := hget(request.Header, "Grpc-Timeout") in |h| >= 1 && (!isUnit(h[|h|-1]) || !isInt10(h[:|h|-1]) || (isNum10(h[:|h|-1]) && val10(h[:|h|-1]) > 99999999)) ==> err != nil && codeOf(err) == 3 && coded(err)   // label: malformed-is-invalid-argument
+//@   ensures let h := hget(request.Header, "Grpc-Timeout") in |h| >= 1 && (!isUnit(h[|h|-1]) || !isNum10(h[:|h|-1]) || (isNum10(h[:|h|-1]) && val10(h[:|h|-1]) > 99999999)) ==> err != nil && codeOf(err) == 3 && coded(err)   // label: malformed-is-invalid-argument
 
 //@ func (*connectHandler).SetTimeout(h, request) (ctx, cancel, err)
 //@   tags C10, C07, C15
@@ -247,7 +247,7 @@ package connect
 //@   requires request != nil
 //@   ensures let v := hget(request.Header, "Connect-Timeout-Ms") in v == "" ==> err == nil && ctx == reqctx(request) && cancel == nil    // label: absent-is-unbounded
 //@   ensures let v := hget(request.Header, "Connect-Timeout-Ms") in isNum10(v) && |v| <= 10 ==> err == nil && ctx == ctxWithTimeout(reqctx(request), val10(v) * 1000000)   // label: grammatical-honoured-exactly
-//@   ensures let v := hget(request.Header, "Connect-Timeout-Ms") in |v| > 10 || (v != "" && !isInt10(v)) ==> err != nil && coded(err) && codeOf(err) == 3   // label: malformed-is-invalid-argument
+//@   ensures let v := hget(request.Header, "Connect-Timeout-Ms") in |v| > 10 || (v != "" && !isNum10(v)) ==> err != nil && coded(err) && codeOf(err) == 3   // label: malformed-is-invalid-argument
 
 // ---------------------------------------------------------------------------
 // handler.go: dispatch
@@ -1412,9 +1412,9 @@ package connect
 //@   assert@call(readOnlyCompressionPools.Get#1): arg1 == c.protocolClientParams.CompressionName
 //@   assert@call(readOnlyCompressionPools.Get#2): arg1 == c.protocolClientParams.CompressionName
 //@   assigns everything
-//@   assert@call(newDuplexHTTPCall#1): !callresb("context.Context.Deadline", 1, 1) ==> hdom(header, "Connect-Timeout-Ms") == old(hdom(header, "Connect-Timeout-Ms")) && hraw(header, "Connect-Timeout-Ms") == old(hraw(header, "Connect-Timeout-Ms"))   // label: no-deadline-no-timeout-header
-//@   assert@call(newDuplexHTTPCall#1): callresb("context.Context.Deadline", 1, 1) && callres("time.Until", 1) >= 1000000 && callres("time.Until", 1) / 1000000 < 10000000000 ==> hdom(header, "Connect-Timeout-Ms") && hraw(header, "Connect-Timeout-Ms") == [dec(callres("time.Until", 1) / 1000000)]   // label: timeout-is-the-remaining-time-in-whole-milliseconds
-//@   assert@call(newDuplexHTTPCall#1): callresb("context.Context.Deadline", 1, 1) && callres("time.Until", 1) / 1000000 >= 10000000000 ==> hdom(header, "Connect-Timeout-Ms") == old(hdom(header, "Connect-Timeout-Ms")) && hraw(header, "Connect-Timeout-Ms") == old(hraw(header, "Connect-Timeout-Ms"))   // label: too-large-a-timeout-is-omitted-not-truncated
+//@   assert@call(newDuplexHTTPCall#1): !callresb("context.Context.Deadline", 1, 1) ==> !hdom(header, "Connect-Timeout-Ms")   // label: no-deadline-no-timeout-header
+//@   assert@call(newDuplexHTTPCall#1): callresb("context.Context.Deadline", 1, 1) && callres("time.Until", 1) > 0 && callres("time.Until", 1) / 1000000 < 10000000000 ==> hdom(header, "Connect-Timeout-Ms") && hraw(header, "Connect-Timeout-Ms") == [dec(callres("time.Until", 1) / 1000000)]   // label: timeout-is-the-remaining-time-in-whole-milliseconds
+//@   assert@call(newDuplexHTTPCall#1): callresb("context.Context.Deadline", 1, 1) && callres("time.Until", 1) / 1000000 >= 10000000000 ==> !hdom(header, "Connect-Timeout-Ms")   // label: too-large-a-timeout-is-omitted-not-truncated
 
 //@ func (*grpcClient).NewConn(g, ctx, spec, header) res
 //@   tags C10, C09, C08, C01, C06
@@ -1422,7 +1422,7 @@ package connect
 //@   assert@call(wrapClientConnWithCodedErrors#1): typeis(arg0, "*grpcClientConn") && (let t := cast(arg0, "*grpcClientConn") in t.unmarshaler.envelopeReader.readMaxBytes == g.protocolClientParams.ReadMaxBytes && t.unmarshaler.envelopeReader.codec == g.protocolClientParams.Codec && t.unmarshaler.envelopeReader.reader == t.duplexCall && t.unmarshaler.web == g.web && t.marshaler.envelopeWriter.writer == t.duplexCall && t.marshaler.envelopeWriter.codec == g.protocolClientParams.Codec && t.marshaler.envelopeWriter.compressMinBytes == g.protocolClientParams.CompressMinBytes && t.marshaler.envelopeWriter.compressionPool == callres("readOnlyCompressionPools.Get", 1) && t.compressionPools == g.protocolClientParams.CompressionPools && t.protobuf == g.protocolClientParams.Protobuf && t.bufferPool == g.protocolClientParams.BufferPool && t.bufferPool != nil && t.marshaler.envelopeWriter.bufferPool == t.bufferPool && t.unmarshaler.envelopeReader.bufferPool == t.bufferPool)   // label: conn-carries-the-client's-codec-limit-threshold-and-compression   // tags: C09, C08, C01, C06
 //@   assert@call(readOnlyCompressionPools.Get#1): arg1 == g.protocolClientParams.CompressionName
 //@   assigns everything
-//@   assert@call(newDuplexHTTPCall#1): !callresb("context.Context.Deadline", 1, 1) ==> hdom(header, "Grpc-Timeout") == old(hdom(header, "Grpc-Timeout")) && hraw(header, "Grpc-Timeout") == old(hraw(header, "Grpc-Timeout"))   // label: no-deadline-no-timeout-header
+//@   assert@call(newDuplexHTTPCall#1): !callresb("context.Context.Deadline", 1, 1) ==> !hdom(header, "Grpc-Timeout")   // label: no-deadline-no-timeout-header
 //@   assert@call(newDuplexHTTPCall#1): callresb("context.Context.Deadline", 1, 1) && callres("time.Until", 1) > 0 ==> hdom(header, "Grpc-Timeout") && hraw(header, "Grpc-Timeout") == [callres("grpcEncodeTimeout", 1, 0)] && gramT(callres("grpcEncodeTimeout", 1, 0)) && durT(callres("grpcEncodeTimeout", 1, 0)) <= callres("time.Until", 1)   // label: timeout-is-the-encoded-remaining-time
 
 // ---------------------------------------------------------------------------
